@@ -77,6 +77,10 @@ func (p PSet) installChain() (restore func()) {
 		if pr.Approved != 0 {
 			yp.ApprovedUpgradeVersion = params.YouVersion(chainBase + pr.Approved)
 		}
+		// every version pays a different block subsidy: which version's parameters a block is EXECUTED under is
+		// then visible in its state root (builder, importers and followers must agree on it round by round,
+		// in particular at the round, protocolRoundBack after the switch, from which the new parameters apply)
+		yp.SubsidyCoeff = base.SubsidyCoeff + uint8(v)
 		yp.UpgradeWaitRounds = pr.OwnWait
 		yp.UpgradeVoteRounds = pr.Rounds
 		yp.UpgradeThreshold = pr.Thr
@@ -148,6 +152,7 @@ type WSys struct {
 	count    bool
 	node     *chainx.Node // the building node (the worker stores its own blocks here)
 	follower *chainx.Node // an independent node that imports every block
+	tail     uint64       // extra rounds beyond R (the straight all-worker path past switch + protocolRoundBack)
 	dead     bool
 	viols    []mc.Violation
 	pend     []string
@@ -174,7 +179,7 @@ func (s *WSys) Reset() {
 func (s *WSys) head() hdr { return tupleOf(s.node.Head().Header()) }
 
 func (s *WSys) Enabled() []string {
-	if s.dead || s.node.Head().NumberU64() >= s.p.R() {
+	if s.dead || s.node.Head().NumberU64() >= s.p.R()+s.tail {
 		return nil
 	}
 	return []string{"W", "N"}
@@ -395,6 +400,22 @@ func runWorkerChains(r *mc.Run) {
 		name := wcName(p)
 		n := r.BFS(func() mc.System { return newWSys(r, p, true) }, mc.SeqOpts{Name: name, Config: p.String(), Depth: int(p.R())})
 		r.ConfirmSeq(name, func() mc.System { return newWSys(r, p, false) })
+		// the straight path on which the real worker builds EVERY block, 12 rounds beyond R: past the round,
+		// protocolRoundBack (8) after the switch, from which the new version's parameters apply to execution
+		// (each version pays another subsidy: builder, its own node and the follower must agree on every block)
+		tailSys := newWSys(r, p, true)
+		tailSys.tail = 12
+		var ops []string
+		for i := uint64(0); i < p.R()+12; i++ {
+			ops = append(ops, "W")
+		}
+		_, tv, _ := mc.ReplaySeq(tailSys, ops)
+		for _, x := range tv {
+			x.System, x.Config, x.Ops = name, p.String(), ops
+			r.Report(x)
+		}
+		r.Count("worker_chain_tail_blocks_past_the_switch_checked", int64(len(ops)))
+		tailSys.closeNodes()
 		restore()
 		names = append(names, fmt.Sprintf("%s: R=%d states=%d", p, p.R(), n))
 		done++
@@ -416,6 +437,7 @@ func replayWorkerChain(r *mc.Run, v *mc.Violation) {
 	restore := p.installChain()
 	defer restore()
 	s := newWSys(r, p, false)
+	s.tail = 12 // the tail path is longer than R
 	s.Reset()
 	defer s.closeNodes()
 	fmt.Printf("params: %s\nround 0: {%s}\n", p, s.head())
